@@ -47,7 +47,8 @@ package tracing
 
 // ---------- AverageTimeTracer: AverageTime() == floor(Σ durations / count), TotalCount() == count ----------
 //
-// c34AvgSum is a logical variable: the exact sum S of the durations of the tasks ended so far.  "The tracer reports
+// c34AvgSum is a logical variable: the exact sum S of the durations of the tasks ended so far.  The tracer keeps that sum
+// in t.totalTime (representation invariant: int(t.totalTime) == S) and reports averageTime.  "The tracer reports
 // floor(S / n)" is avg*n <= S < (avg+1)*n (n > 0); with n == 0 nothing has ended, S == 0 and the tracer reports 0.
 // EndTask of a tracked task with duration d must re-establish this for S + d and n + 1, whatever S was.
 
@@ -60,7 +61,7 @@ package tracing
 //@   label C34.avg.new
 //@   ensures result != nil && fresh(result) && result.inflightTasks != nil && len(result.inflightTasks) == 0 && result.filter == filter
 //@   label C34.avg.new.exact
-//@   ensures c34AvgExact(int(result.averageTime), int(result.taskCount), 0) && result.taskCount == 0
+//@   ensures c34AvgExact(int(result.averageTime), int(result.taskCount), 0) && result.taskCount == 0 && result.totalTime == 0
 //@   label C34.avg.new.empty
 //@   ensures forall k uint64 :: !(k in result.inflightTasks)
 //@   assigns nothing
@@ -80,22 +81,25 @@ package tracing
 //@ fn (*AverageTimeTracer).EndTask
 //@   property C34
 //@   requires t.inflightTasks != nil && t.taskCount < MaxUint64
+//@   requires int(t.totalTime) == c34AvgSum                                              // the stored sum is the exact sum so far
 //@   requires c34AvgExact(int(t.averageTime), int(t.taskCount), c34AvgSum)               // the reported average is exact so far
 //@   requires (task.ID in t.inflightTasks) ==> t.inflightTasks[task.ID] <= task.Time     // events arrive in time order
 //@   requires (task.ID in t.inflightTasks) ==> c34AvgSum + int(task.Time) - int(t.inflightTasks[task.ID]) <= MaxUint64
 //@   label C34.avg.end.floor
 //@   ensures old(task.ID in t.inflightTasks) ==> c34AvgExact(int(t.averageTime), int(t.taskCount), c34AvgSum + (int(task.Time) - int(old(t.inflightTasks[task.ID]))))
+//@   label C34.avg.end.sum
+//@   ensures old(task.ID in t.inflightTasks) ==> int(t.totalTime) == c34AvgSum + (int(task.Time) - int(old(t.inflightTasks[task.ID])))
 //@   label C34.avg.end.count
 //@   ensures old(task.ID in t.inflightTasks) ==> int(t.taskCount) == int(old(t.taskCount)) + 1
 //@   label C34.avg.end.untracked
-//@   ensures !old(task.ID in t.inflightTasks) ==> t.averageTime == old(t.averageTime) && t.taskCount == old(t.taskCount)
+//@   ensures !old(task.ID in t.inflightTasks) ==> t.averageTime == old(t.averageTime) && t.taskCount == old(t.taskCount) && t.totalTime == old(t.totalTime)
 //@   label C34.avg.end.removed
 //@   ensures !(task.ID in t.inflightTasks)
 //@   label C34.avg.end.others
 //@   ensures forall k uint64 :: k != task.ID ==> ((k in t.inflightTasks) <==> old(k in t.inflightTasks)) && t.inflightTasks[k] == old(t.inflightTasks[k])
 //@   label C34.avg.end.frame
 //@   ensures t.inflightTasks == old(t.inflightTasks) && t.filter == old(t.filter)
-//@   assigns t.averageTime, t.taskCount, elems(t.inflightTasks)
+//@   assigns t.averageTime, t.totalTime, t.taskCount, elems(t.inflightTasks)
 
 // ---------- TagCountTracer: per tag name, #tags recorded and #distinct tracked tasks that carried it ----------
 //
@@ -221,10 +225,14 @@ package tracing
 
 // what the code does (used in invariants only):
 //@ pred c34Ov(ts, a, b) = c34S(ts, a) <= c34E(ts, b) && c34S(ts, b) <= c34E(ts, a)
-//@ pred c34L1(ts) = !c34Ov(ts, 0, 1)
-//@ pred c34L2(ts) = !c34Ov(ts, 0, 2) && !(c34L1(ts) && c34Ov(ts, 1, 2))
-//@ pred c34Cov(ts, r, j) = j <= r || (0 <= r && c34Ov(ts, 0, j)) || (1 <= r && c34L1(ts) && c34Ov(ts, 1, j))     // (a third leader can only cover itself)
-//@ pred c34Mem(ts, l, j, q) = j <= q && j != l && !c34Cov(ts, l - 1, j) && c34Ov(ts, l, j)
+// group of leader 0: task 1 joins iff it meets task 0; task 2 joins iff it meets the interval extended so far
+//@ pred c34M01(ts) = c34Ov(ts, 0, 1)
+//@ pred c34M02(ts) = (c34M01(ts) ? min(c34S(ts, 0), c34S(ts, 1)) : c34S(ts, 0)) <= c34E(ts, 2) && c34S(ts, 2) <= (c34M01(ts) ? max(c34E(ts, 0), c34E(ts, 1)) : c34E(ts, 0))
+//@ pred c34Abs(ts, l, j) = l == 0 ? (j == 1 ? c34M01(ts) : (j == 2 && c34M02(ts))) : (l == 1 && j == 2 && c34Ov(ts, 1, 2))
+//@ pred c34L1(ts) = !c34M01(ts)
+//@ pred c34L2(ts) = !c34M02(ts) && !(c34L1(ts) && c34Ov(ts, 1, 2))
+//@ pred c34Cov(ts, r, j) = j <= r || (0 <= r && c34Abs(ts, 0, j)) || (1 <= r && c34L1(ts) && c34Abs(ts, 1, j))     // (a third leader can only cover itself)
+//@ pred c34Mem(ts, l, j, q) = j <= q && j > l && !c34Cov(ts, l - 1, j) && c34Abs(ts, l, j)
 //@ func c34Lo(ts, l, q) = min(c34S(ts, l), min((c34Mem(ts, l, 1, q) ? c34S(ts, 1) : c34S(ts, l)), (c34Mem(ts, l, 2, q) ? c34S(ts, 2) : c34S(ts, l))))     // (task 0 is never absorbed)
 //@ func c34Hi(ts, l, q) = max(c34E(ts, l), max((c34Mem(ts, l, 1, q) ? c34E(ts, 1) : c34E(ts, l)), (c34Mem(ts, l, 2, q) ? c34E(ts, 2) : c34E(ts, l))))
 //@ func c34Hull(ts, l, n) = c34Hi(ts, l, n - 1) - c34Lo(ts, l, n - 1)
@@ -251,9 +259,10 @@ package tracing
 //@   ensures len(tasks) == 3 ==> int(result) == c34Union3(tasks)
 //@   label C34.busy.union.inputs.unchanged
 //@   ensures c34Stable(tasks, 0) && c34Stable(tasks, 1) && c34Stable(tasks, 2)
+//@   assigns nothing
 // No `assigns` clause on purpose: with `assigns nothing` every frame obligation of this function discharges as well, but
 // the engine then adds quantified frame axioms at the loop heads, under which no solver produces a model for the failing
-// n3 clause (it comes back `unknown`); without them the counterexample (chained intervals) is found in about 1 s.  The
+// n3 clause (it comes back `unknown`); without them a counterexample (before the fix: chained intervals) is found in about 1 s.  The
 // frame that matters — the task objects are not modified — is the explicit postcondition above.
 //@   label C34.busy.inv.outer.shape
 //@   loop 0: invariant -1 <= rangeindex && rangeindex < len(tasks) && coveredMask != nil && fresh(coveredMask)
